@@ -5,7 +5,12 @@ TLC emits is packed into goa designs, generated with the protoc stand-in (fakepr
 protodesc.NewFile as descriptor oracle), compiled and run in process (generated client -> stand-in transport
 -> generated server -> recording stub) and judged against the oracle sets the model computed; (J) the parsed
 field tables, rpc declarations and recorded exchanges - of the enumerated cases and of randomly concretised
-ones - are validated as traces by TLC (Trace_GRPCTransport)."""
+ones - are validated as traces by TLC (Trace_GRPCTransport).
+Nestings compose (a.path in GRPCTransport.tla): the well-formedness family holds every path of up to PathDepth
+steps (2 in the quick tier, 3 in the thorough one) - OneOf members of alias / message / list / map type, aliases
+of aliases, lists and maps of aliases and messages, messages holding OneOfs, one user type serving request and
+response - and the round-trip families every two-step path whose values the value classes can describe; a tier
+that samples method shapes keeps at least one shape of every such path."""
 import json, os, random
 from vlib import core, httpgen as hg, grpc_gen as gg, grpc_check as gc
 
